@@ -60,7 +60,7 @@ int ut_established(int fd);
 
 bool ut_is_readable(int fd);
 
-/* 'name' buffer needs to be NAME_MAX in size */
+/* 'name' buffer needs to be NAME_MAX + 1 in size */
 int ut_self_net_ns(char *name);
 
 int ut_accept(int sockfd, struct sockaddr *addr, socklen_t *addrlen,
